@@ -306,7 +306,7 @@ theorem C04_unordered_keeps_invariant (s : Shared Œ± œÅ) (m : MethodInfo) (a : Œ
     source on every run by `tools/translate_counter.py`) is the model's `Pattern.owns` -/
 theorem C04_source_slot_test (p : Pattern Œ± œÅ) (idx : Nat) :
     Generated.ownsSrc p.lo p.hi idx = decide (p.owns idx) := by
-  simp only [Generated.ownsSrc, Pattern.owns, gt_iff_lt]
+  unfold Generated.ownsSrc Pattern.owns
   by_cases h1 : p.lo ‚â§ idx <;> by_cases h2 : idx < p.hi <;> simp [h1, h2]
 
 end Unimock
